@@ -6,6 +6,7 @@ mod run_bfv;
 mod run_bitvec;
 mod run_lender;
 mod run_ranksel;
+mod run_rcl;
 mod run_sigstore;
 
 use common::*;
@@ -70,6 +71,8 @@ fn main() {
         ("lender", Some(l)) => run_lender::replay(&mut ctx, l),
         ("sigstore", None) => run_sigstore::run(&mut ctx),
         ("sigstore", Some(l)) => run_sigstore::replay(&mut ctx, l),
+        ("rcl", None) => run_rcl::run(&mut ctx),
+        ("rcl", Some(l)) => run_rcl::replay(&mut ctx, l),
         ("bfv", None) => run_bfv::run(&mut ctx),
         ("bfv", Some(l)) => run_bfv::replay(&mut ctx, l),
         (r, _) => {
